@@ -647,3 +647,25 @@ func (t *Task) unhold(h string) {
 		}
 	}
 }
+
+// Once is the shim for sync.Once: the first caller runs f, later callers wait until it has returned
+// (and are ordered after it).
+type Once struct {
+	real sync.Once
+	mu   RWMutex
+	done bool
+}
+
+// Do runs f once.
+func (o *Once) Do(f func()) {
+	if s, _ := sim(); s == nil {
+		o.real.Do(f)
+		return
+	}
+	o.mu.Lock()
+	defer o.mu.Unlock()
+	if !o.done {
+		f()
+		o.done = true
+	}
+}
